@@ -3731,7 +3731,7 @@ func convertLiteralValue(n *node, t reflect.Type) {
 		// Skip non-constant values, undefined target type or interface target type.
 	case n.rval.IsValid():
 		// Convert constant value to target type.
-		convertConstantValue(n)
+		convertConstantValueTo(n, t)
 		n.rval = n.rval.Convert(t)
 	default:
 		// Create a zero value of target type.
@@ -3739,7 +3739,11 @@ func convertLiteralValue(n *node, t reflect.Type) {
 	}
 }
 
-func convertConstantValue(n *node) {
+func convertConstantValue(n *node) { convertConstantValueTo(n, nil) }
+
+// convertConstantValueTo converts the constant value of n to a regular value of
+// type t, or of the type of n if t is nil.
+func convertConstantValueTo(n *node, t reflect.Type) {
 	if !n.rval.IsValid() {
 		return
 	}
@@ -3758,9 +3762,10 @@ func convertConstantValue(n *node) {
 	case constant.Int:
 		if i, x := constant.Int64Val(c); x {
 			v = reflect.ValueOf(int(i))
-		} else if u, x := constant.Uint64Val(c); x {
-			// Values above the int64 range are valid for uint64 and uintptr.
-			v = reflect.ValueOf(u)
+		} else if u, x := constant.Uint64Val(c); x && t != nil && isUnsignedKind(t.Kind()) {
+			// Values above the int64 range are valid for uint, uint64 and uintptr.
+			n.rval = reflect.ValueOf(u).Convert(t)
+			return
 		} else {
 			panic(n.cfgErrorf("constant %s overflows int64", c.ExactString()))
 		}
@@ -3774,6 +3779,14 @@ func convertConstantValue(n *node) {
 	}
 
 	n.rval = v.Convert(n.typ.TypeOf())
+}
+
+func isUnsignedKind(k reflect.Kind) bool {
+	switch k {
+	case reflect.Uint, reflect.Uint8, reflect.Uint16, reflect.Uint32, reflect.Uint64, reflect.Uintptr:
+		return true
+	}
+	return false
 }
 
 // Write to a channel.
